@@ -368,6 +368,12 @@ class Verdict:
             print("DRIFT: property=%s %s" % (self.pid, d))
         replay_paths = []
         seen = set()
+        # drop violation files of earlier runs (the file given to --replay is kept)
+        import glob as _glob
+        keep = os.path.abspath(os.environ.get("VERIF_REPLAY_FILE", "")) if os.environ.get("VERIF_REPLAY_FILE") else None
+        for old in _glob.glob(os.path.join(outdir(self.pid), "violation-*.json")):
+            if os.path.abspath(old) != keep and os.path.getmtime(old) < self.t0:
+                os.remove(old)
         for sig, desc, replay in self.violations:
             if sig in seen:
                 continue
@@ -405,6 +411,8 @@ def parse_args(argv):
     seed = int(os.environ.get("VERIF_SEED", "1") or "1")
     if a.tier not in ("quick", "thorough"):
         a.tier = "quick"
+    if a.replay:
+        os.environ["VERIF_REPLAY_FILE"] = a.replay
     return a.pid, a.tier, seed, a.replay
 
 
